@@ -27,6 +27,10 @@ NOTES = {
     'C19-B4-failed-printer-disabled-for-the-type': 'first caught by C14 (later fault-free print differs); C19 itself MISSED it as built then (no type whose printer fails for some instances only); caught by C19 after adding one',
     'C19-B4b-resolved-printer-memo-misses-subclasses': 'first caught by C15 (history: print subclass, register base by name, print subclass); C19 itself MISSED it as built then (no registration between prints); caught by C19 after adding histories with registration operations',
     'C13-A4-thread-local-visited-set': 'first caught by C14 (print after an invalid-return ValueError); C13 itself MISSED it as built then; caught by C13 after adding the aborted-print probe',
+    'C15-A5-superclass-query-ignores-object-and-abcs': 'MISSED by C15 as built then (object was never a registration target); caught after adding histories that register printers for object, each in a fork of its own',
+    'C15-A5b-deferred-scan-in-registration-order-for-deep-mro': 'MISSED by C15 as built then (the fixed lattice is at most 4 classes deep; the change needs an MRO longer than the number of pending by-name registrations, 7 in a fresh process); caught after adding histories on random class hierarchies up to 18 deep (with per-history teardown of unresolved registrations)',
+    'C13-A5-fallback-early-return-shared-object': 'first caught by C14 (visited-set trace after a contained fault); C13 itself MISSED it as built then (no object with a failing printer in its graphs); caught by C13 after adding a shared node kind whose printer raises',
+    'C05-A5-fast-predicate-walks-into-always-break': 'claimed for C05; caught by C04 (an always_break rendered inside a flat group, layout not denoted). C05\'s own check stays silent BY DESIGN: it judges the line on which a flat group starts, and a flat group spanning a forced break is judged by the forcing clause of C04 (DESIGN 3/C05: "only the first line is judged")',
 }
 for name, note in NOTES.items():
     p = os.path.join(HOME, 'seeded', name, 'meta.json')
@@ -45,6 +49,9 @@ for p in glob.glob(os.path.join(HOME, 'seeded', '*', 'meta.json')):
     if rnd in ('2', '3'):
         m['origin'] = ('round %s: independent sub-agent in its own scratch worktree, given the property text plus a PROSE description of the kind of generated workload '
                        'it had to slip past (no file from /verif) - a deliberately stronger adversary than "property text only"' % rnd)
+    elif rnd == '5':
+        m['origin'] = ('round 5: independent sub-agent in its own scratch worktree, given four property texts only (pick two), asked to prove rarity itself with a random '
+                       'differential test of its own (clean vs changed copy, < 1 in 1000 random inputs differing)')
     elif rnd == '4':
         m['origin'] = 'round 4: independent sub-agent in its own scratch worktree, given four property texts only, asked for two cooperating edits or a multi-step call sequence'
     else:
